@@ -261,7 +261,11 @@ def rootKey (P : Str) : PKey := [(some "chr", none, some P)]
 def append (P : Str) (x y : SeqObj) : R SeqObj := do
   let d := x.data ++ y.data
   match x.par with
-  | none => pure ⟨d, none⟩
+  | none =>
+    -- `if self.parent or other.parent:` (repair 8efbbce): a parent on one side only is refused
+    match y.par with
+    | none => pure ⟨d, none⟩
+    | some _ => throw .ValueError
   | some px =>
     match y.par with
     | none => throw .ValueError                      -- `equals_except_location(None)` is False
